@@ -10,4 +10,9 @@ sed "s#@REPO@#$REPO#g" harness/Cargo.toml.in > harness/Cargo.toml
 cp -f "$REPO/Cargo.lock" harness/Cargo.lock
 ( cd harness && RUSTFLAGS="--cfg searchlite_verif" CARGO_TARGET_DIR="${SLV_TARGET:-$PWD/../.cache/target}" timeout 3000 cargo build --offline --bins )
 ( cd "$REPO" && CARGO_TARGET_DIR="${SLV_CLI_TARGET:-${SLV_TARGET:-$OLDPWD/.cache/target}-cli}" timeout 3000 cargo build --offline -p searchlite-cli )
+if [ -d harness-wasm ]; then
+  sed "s#@REPO@#$REPO#g" harness-wasm/Cargo.toml.in > harness-wasm/Cargo.toml
+  [ -f harness-wasm/Cargo.lock ] || cp -f "$REPO/Cargo.lock" harness-wasm/Cargo.lock
+  ( cd harness-wasm && SLV_REPO="$REPO" RUSTFLAGS="--cfg searchlite_verif" CARGO_TARGET_DIR="${SLV_TARGET:-$PWD/../.cache/target}/wasm-host" timeout 3000 cargo build --offline --bin c27 )
+fi
 echo "setup ok"
